@@ -1,5 +1,5 @@
 SPECIFICATION Spec
-CONSTANTS MaxDepth = 3  MaxUpdates = 1  Mode = "obj_deep"  ShareSet = {TRUE, FALSE}  NegIdx = FALSE  Rich = FALSE
+CONSTANTS MaxDepth = 3  MaxUpdates = 1  Mode = "obj_deep"  ShareSet = {TRUE, FALSE}  NegIdx = TRUE  Rich = FALSE
 INVARIANT TypeOK
 INVARIANT Persistent
 INVARIANT PathOnly
